@@ -23,7 +23,7 @@ Proof. exact join_words. Qed.
 Theorem C25_create_command_verbatim : forall cmd ts e w i o er,
   cmd_ok (join " " cmd) ts ->
   forallb (fun kv => key_ok (fst kv)) (opt_env e) = true ->
-  o <> SPipe -> o <> SDevnull ->
+  o <> SPipe ->
   exists line,
     create_command cmd e w i o er = inl line /\
     sh_lex line = Some (wd_toks "&&" w ++ export_toks "&&" (opt_env e) ++ ts
@@ -32,21 +32,41 @@ Proof. exact create_command_tokens. Qed.
 Theorem C25_quoted_command_ok : forall args, args <> [] -> cmd_ok (join " " (map quote args)) (map W args).
 Proof. exact cmd_ok_quoted. Qed.
 
-(* ---- the same through the persistent shell (_build_shell_command): the script is ONE argument of
-        sh -c, and inside it cd and every export receive their operand verbatim *)
+(* ---- the same through the persistent shell (_build_shell_command): for EVERY command, environment and
+        working directory the script is ONE argument of a child sh -c with an empty standard input; inside it
+        cd and every export receive their operand verbatim and the command comes after && *)
 Theorem C25_shell_wrapped : forall cmd e w,
-  nonempty_env e || nonempty_str w = true ->
-  sh_lex (build_cmd_line cmd e w) = Some [W "sh"; W "-c"; W (build_inner cmd e w); Op "2>&"; W "1"].
+  sh_lex (build_cmd_line cmd e w)
+  = Some [W "sh"; W "-c"; W (build_inner cmd e w); Op "<"; W "/dev/null"; Op "2>&"; W "1"].
 Proof. exact build_cmd_line_wrapped. Qed.
 Theorem C25_shell_env : forall cmd ts e w,
   cmd_ok (join " " cmd) ts ->
   forallb (fun kv => key_ok (fst kv)) (eff_e e) = true ->
-  sh_lex (build_inner cmd e w) = Some (wd_toks ";" (eff_w w) ++ export_toks ";" (eff_e e) ++ ts)%list.
+  sh_lex (build_inner cmd e w) = Some (wd_toks "&&" (eff_w w) ++ export_toks "&&" (eff_e e) ++ ts)%list.
 Proof. exact build_inner_tokens. Qed.
+
+(* without environment and working directory the child's script is the command text and nothing else
+   (before the round-4 fix this case was written to the persistent shell bare; the name is kept) *)
 Theorem C25_shell_plain : forall cmd ts e w,
   nonempty_env e || nonempty_str w = false -> cmd_ok (join " " cmd) ts ->
-  sh_lex (build_cmd_line cmd e w) = Some (ts ++ [Op "2>&"; W "1"])%list.
-Proof. exact build_cmd_line_plain. Qed.
+  build_inner cmd e w = join " " cmd /\ sh_lex (build_inner cmd e w) = Some ts.
+Proof. exact build_inner_plain. Qed.
+
+(* ---- persistent shell = fresh process, including commands that change the state of the shell that runs them
+        (cd, export, exit).  [run_state Wrapped] is the code as it is (C25_shell_wrapped: always a child sh -c);
+        [Bare] is what _build_shell_command did before its fix when no environment and no workdir was given.
+        The semantics of cd/export/exit/pwd/echo is a model of sh (Frame/Model.v), exercised by the `seq` cases. *)
+Theorem C25_shell_state_isolated : forall st0, s_alive st0 = true ->
+  forall cs, run_state Wrapped st0 st0 cs = fresh_results st0 cs.
+Proof. exact run_state_wrapped. Qed.
+Theorem C25_shell_state_leak_refuted :
+  run_state Bare st_demo st_demo [SCd "/tmp"; SPwd] = [("", 0%N); ("/tmp", 0%N)] /\
+  fresh_results st_demo [SCd "/tmp"; SPwd] = [("", 0%N); ("/work", 0%N)] /\
+  run_state Bare st_demo st_demo [SExport "FOO" "1"; SEcho "FOO"] = [("", 0%N); ("[1]", 0%N)] /\
+  fresh_results st_demo [SExport "FOO" "1"; SEcho "FOO"] = [("", 0%N); ("[]", 0%N)] /\
+  run_state Wrapped st_demo st_demo [SCd "/tmp"; SPwd; SExport "FOO" "1"; SEcho "FOO"; SExit 3; SPwd]
+    = [("", 0%N); ("/work", 0%N); ("", 0%N); ("[]", 0%N); ("", 3%N); ("/work", 0%N)].
+Proof. exact run_state_bare_leaks. Qed.
 
 (* ---- the unquoted form export K="v": used by create_command before its fix and still by
         CommandTemplateMap (pinned by tests/test_connector.py::test_command_template): NOT verbatim.
@@ -85,9 +105,11 @@ Theorem C25_marker_free : forall marker, has_char ":"%char marker = false ->
   forall out t, cut (marker ++ ":") out = None -> no_early (marker ++ ":") out t = true.
 Proof. exact no_early_intro. Qed.
 
-(* ---- a sequence of commands on one persistent shell, none timing out: every command is started once
-        and returns exactly what a fresh process returns, (strip out, code); with or without a trailing
-        newline, whatever the exit codes *)
+(* ---- FRAMING of a sequence of commands on one persistent shell, none timing out: GIVEN that the shell
+        process emits, for each command, the bytes a fresh process would emit followed by the marker line
+        ([wf_cmd]; that the shell state does not make it emit something else is C25_shell_state_isolated), every
+        command is started once and run() returns exactly (strip out, code), with or without a trailing newline,
+        whatever the exit codes, and the stream is clean for the next command *)
 Theorem C25_sequence : forall flag cs outs sh,
   closed sh = true \/ pending sh = [] ->
   Forall2 (fun c oc => wf_cmd c (fst oc) (snd oc)) cs outs ->
@@ -175,6 +197,8 @@ Print Assumptions C25_quoted_command_ok.
 Print Assumptions C25_shell_wrapped.
 Print Assumptions C25_shell_env.
 Print Assumptions C25_shell_plain.
+Print Assumptions C25_shell_state_isolated.
+Print Assumptions C25_shell_state_leak_refuted.
 Print Assumptions C25_template_env_refuted.
 Print Assumptions C25_raw_workdir_refuted.
 Print Assumptions C25_framing.
